@@ -10,10 +10,10 @@ rm -rf "$S"; mkdir -p "$S"; rsync -a --exclude .git --exclude __pycache__ /repo/
 TESTS=$(cd "$S" && PYTHONDONTWRITEBYTECODE=1 /venv/bin/python -m pytest -q -p no:cacheprovider test_autoarray 2>&1 | tail -1)
 PYTHONPATH=/repo PYTHONDONTWRITEBYTECODE=1 /venv/bin/python "$D/demo.py" >/dev/null 2>&1; D0=$?
 PYTHONPATH="$S" PYTHONDONTWRITEBYTECODE=1 /venv/bin/python "$D/demo.py" >/dev/null 2>&1; D1=$?
-OUT=$(VERIF_REPO="$S" "$HERE/check" "$ID" --tier "$TIER" 2>&1); RC=$?
+OUT=$(VERIF_EVIDENCE_DIR="$S.ev" VERIF_REPO="$S" "$HERE/check" "$ID" --tier "$TIER" 2>&1); RC=$?
 VLINES=$(echo "$OUT" | grep -c "^VIOLATION")
 FIRST=$(echo "$OUT" | grep "^VIOLATION" | head -2 | cut -c1-400)
-rm -rf "$S"
+rm -rf "$S" "$S.ev"
 mkdir -p "$HERE/seeded/$NAME"
 cp "$D/patch.diff" "$D/demo.py" "$HERE/seeded/$NAME/"
 /venv/bin/python - "$D/meta.json" "$HERE/seeded/$NAME/meta.json" "$ID" "$TESTS" "$D0" "$D1" "$RC" "$VLINES" "$TIER" "$FIRST" <<'PY'
